@@ -183,6 +183,9 @@ func genMultiset(r *rand.Rand, n int) []vegeta.Result {
 		for k, nd := 0, 10+r.Intn(50); k < nd; k++ {
 			errs = append(errs, fmt.Sprintf("dial tcp 10.0.0.%d:%d: connect: connection refused", k, 8000+k))
 		}
+		for k := 0; k < 6; k++ { // long texts of equal length that differ only in the middle (the same long URL failing on different addresses)
+			errs = append(errs, fmt.Sprintf("Get \"http://service.internal.example/api/v2/accounts/0123456789/orders?status=open&page=1\": dial tcp 10.0.0.%d:8080: connect: connection refused by the peer after a long wait in the accept queue of the listener", k))
+		}
 	}
 	span := []int64{1, 1000, 1e9, 3600e9}[r.Intn(4)]
 	maxLat := int64(math.MaxInt64/2) / int64(n+1)
